@@ -1,5 +1,9 @@
 """C10 -- a URI built from components composes and parses back to the same components."""
 import ast
+import base64
+import collections
+import copy
+import itertools
 import os
 import re
 import socket
@@ -21,6 +25,10 @@ RULE = ('T2/T3: URI(bytes).tuple, URI(scheme=..,...).tuple, bytes(URI), the path
 	'Wave-3 classes: reused objects (serialised, read, modified through attributes / dict / tuple / set() / parse() / __init__ and serialised again; second and third parse on one object; copies) compared with a new object from the same final components; '
 	'non-normalised and look-alike text in every text slot; lengths 11..8192 (65535/65536) per slot, host and whole serialisation; every scheme of URI.SCHEMES (read at run time) x every registered default port x letter cases; all 22x22 escape spellings; '
 	'degenerate values per slot and hosts on the border between the syntactic kinds; the components re-written by an independent RFC 3986 sender (other escaping / hex case / scheme and host case / port spellings). '
+	'Wave-5 classes: the same components handed over in every argument type the setters accept (pairs as tuple / list / dict / OrderedDict / dict subclass / items view / one-shot iterators, segments as list / tuple / deque / iterators, text as str or UTF-8 bytes, port as int / str / bytes, '
+	'constructor arguments vs attributes in any order, every parse entry point); two objects from one argument object, argument objects and returned views modified afterwards; refused operations (invalid port, non-text, non-iterable, unencodable, undecodable) followed by further use; '
+	'URI.encoding on a subclass and assigned on the class (Latin-1, cp1252, koi8-r, cp1251, ISO8859-15, spellings of UTF-8) with text of that repertoire; orders of pairs and segments (reverse-sorted, repeated non-adjacent, case-only differences) also through normalize / join / ==; '
+	'every trailing octet 0x80-0xBF of a UTF-8 sequence, Unicode blanks and base64 text at the ends of every slot; lengths 2^k and 2^k+-1 for k = 9..16 per slot, escaped length and whole serialisation. '
 	'Oracle: tuple and octets after compose -> parse -> compose on the real code, plus an independent RFC 3986 appendix-B reading of the composed octets. '
 	'non-trivial = distinct (kind, input) reaching a distinct outcome')
 EXHAUSTIVE = {'quick': False, 'thorough': False}
@@ -260,6 +268,7 @@ def gen_cases(rng, tier):
 	for n in [0, 1, 9, 10, 11, 99, 100, 101, 255, 256, 999, 1000, 9999, 10000, 32767, 32768, 65535, 65536, 99999, 100000, 10 ** 9, 2 ** 64, 10 ** 25] + [rng.randint(0, 70000) for _ in range(100)]:
 		cases.append({'k': 'dec', 'n': n})
 	cases.extend(_gen_classes(rng, big))
+	cases.extend(_gen_wave5(rng, big))
 	return cases
 
 
@@ -460,6 +469,188 @@ def _gen_classes(rng, big):
 		if _textlen(c) > COQ_TEXT_LIMIT // 3:
 			c['nocoq'] = 1
 		out.append(c)
+	return out
+
+
+# ---------------------------------------------------------------- fifth-wave classes (10)-(17) of DESIGN section 8
+# forms in which the query pairs / the path segments can be handed to the setters (class 11); DICT_QFORMS need distinct names
+QFORMS = ('tuple', 'list', 'lists', 'dict', 'odict', 'dictsub', 'ddict', 'items', 'iter', 'gen', 'map', 'chain', 'zip', 'deque', 'pairiters', 'iterable', 'oneshot')
+DICT_QFORMS = ('dict', 'odict', 'dictsub', 'ddict', 'items')
+SFORMS = ('list', 'tuple', 'iter', 'gen', 'map', 'chain', 'deque', 'reversed', 'iterable', 'oneshot')
+TY_HOWS = ('attrs', 'attrs', 'kw', 'kw-some', 'kw-some', 'ctor-dict', 'set-dict', 'dict=', 'ctor-odict', 'set-dictsub')
+KW = {'scheme': 'scheme', 'user': 'username', 'pw': 'password', 'host': 'host', 'port': 'port', 'frag': 'fragment'}
+AL_WAYS = ('same-args', 'same-args', 'copy', 'set', 'tuple', 'dict', 'views', 'join')
+# operations the clean API refuses BEFORE it touches the object (class 12).  Not in this list, on purpose: the refusals of the multi-slot entry points
+# (u.parse / u.set / URI.__init__ with octets that hold a ':' or an invalid port, u.tuple = / u.dict = with an invalid port): URI.parse assigns the scheme (and
+# with it the class) before it validates anything and the tuple / dict setters assign slot by slot, so a refused call leaves a half-assigned object
+# (u = URI(b'foo://u:p@h:81/a'); u.parse(b'http://[::1') raises InvalidURI and u is now an HTTP object with scheme 'http').  Reported to the lead as an
+# observation outside the statement of C10 (which speaks of assembled, not of refused URIs); kept out of this generator so that the clean run stays green.
+RF_OPS = ('port-big', 'port-neg', 'port-text', 'port-underscore', 'port-list', 'port-octet', 'user-int', 'pw-bytearray', 'host-memoryview', 'frag-list', 'scheme-int', 'user-obj', 'host-float',
+	'segs-int', 'segs-none', 'segs-bytes', 'segs-mixed', 'segs-iter-mixed', 'query-int', 'query-none', 'query-short', 'query-long', 'query-intval', 'query-surrogate', 'query-str', 'query-bytesval',
+	'query-mixed', 'query-iter-short', 'query-dict-int', 'tuple-short', 'tuple-int', 'dict-int', 'set-int', 'set-none', 'set-bytearray', 'set-memoryview', 'parse-octet', 'parse-blank', 'parse-host',
+	'parse-utf8', 'parse-query-utf8', 'join-int', 'join-bad', 'eq-int', 'eq-bad', 'compose-frag-surrogate', 'compose-user-surrogate', 'compose-host-long', 'compose-seg-surrogate')
+# charsets selectable through URI.encoding (class 13).  Only ASCII-compatible single-octet charsets and spellings of UTF-8: the parser decodes ASCII octets with
+# the same attribute, so UTF-16 / UTF-32 (which Body and the codecs support) cannot be a URI charset at all.
+CFG_ENCODINGS = ('ISO8859-1', 'latin-1', 'cp1252', 'koi8-r', 'cp1251', 'iso8859-15', 'utf8', 'UTF8', 'utf_8', 'U8', 'ascii')
+POW2 = [512, 1024, 2048, 4096, 8192, 16384, 32768, 65536]
+
+
+def _repertoire(enc):
+	if enc.lower().replace('_', '').replace('-', '') in ('utf8', 'u8'):
+		return None
+	if enc == 'ascii':
+		return []
+	out = []
+	for b in range(0x80, 0x100):
+		try:
+			out.append(bytes([b]).decode(enc))
+		except UnicodeDecodeError:
+			pass
+	return out
+
+
+def _cfg_text(rng, rep, lo=0, hi=4):
+	if rep is None:
+		return rtext(rng, lo, hi, 0, 0)
+	out = []
+	for _ in range(rng.randint(lo, hi)):
+		r = rng.random()
+		if r < 0.35:
+			out.append(rng.choice(DELIMS))
+		elif r < 0.5 or not rep:
+			out.append(rng.choice(['a', 'b', 'Z', '0', '%2f', '%41', '%', '%e9', '..', 'a b']))
+		else:
+			out.append(''.join(rng.choice(rep) for _ in range(rng.randint(1, 3))))
+	return ''.join(out)
+
+
+def _distinct(ps):
+	seen, out = set(), []
+	for n, v in ps:
+		if n not in seen:
+			seen.add(n)
+			out.append([n, v])
+	return out
+
+
+ORDER_PAIRS = [[['q', 'uri'], ['page', '2']], [['z', '1'], ['y', '2'], ['x', '3'], ['a', '4']], [['b', ''], ['a', '']], [['B', '1'], ['a', '2'], ['b', '3'], ['A', '4']], [['10', 'x'], ['9', 'y'], ['1', 'z']],
+	[['ü', '1'], ['a b', 'c&d=e'], ['A', '?/#']], [['b', '2'], ['a', '1'], ['c', '3']], [['n', '3'], ['n2', '2'], ['n10', '1']], [['é', '1'], ['z', '2'], ['e', '3']], [['_', '1'], ['-', '2'], ['.', '3'], ['~', '4'], ['!', '5']]]
+ORDER_PAIRS_DUP = [[['a', '1'], ['b', '2'], ['a', '3']], [['id', '7'], ['sort', 'asc'], ['id', '7']], [['x', ''], ['y', '1'], ['x', '']], [['b', '1'], ['a', '2'], ['b', '0'], ['a', '2']], [['k', 'v']] * 3 + [['j', 'v']]]
+ORDER_SEGS = [['z', 'y', 'x', 'a'], ['b', 'a', 'b'], ['a', 'a', 'a'], ['B', 'a', 'b', 'A'], ['10', '9', '1'], ['c', 'b', 'a', 'b', 'c'], ['pub', 'file.txt'], ['one segment'], ['ä/ö', '?#', 'x:y@z'], ['', ''], ['a', ''], ['x', '', 'y']]
+
+
+def _ty_case(rng, c, i):
+	qform, sform, how = QFORMS[i % len(QFORMS)], SFORMS[(i // 3) % len(SFORMS)], TY_HOWS[(i // 7) % len(TY_HOWS)]
+	if qform in DICT_QFORMS:
+		c['pairs'] = _distinct(c['pairs'])
+	slots = ['user', 'pw', 'host', 'port', 'frag']
+	rng.shuffle(slots)
+	kw = sorted(rng.sample(list(KW), rng.randint(1, 5))) if how == 'kw-some' else []
+	if 'scheme' not in kw and 'port' in kw:
+		kw.remove('port')   # the port is stored with the default of the class the object has at that moment (API design, see 'st'): always assigned after the scheme
+	c = dict(c, k='ty', qform=qform, sform=sform, how=how, order=slots, kw=kw, pq=rng.choice(['sp', 'ps']), tf=sorted(rng.sample(['scheme', 'user', 'pw', 'host', 'frag'], rng.choice([0, 0, 1, 2, 5]))),
+		pform=rng.choice(['int', 'int', 'str', 'bytes']))
+	if _textlen(c) > COQ_TEXT_LIMIT // 2:
+		c['nocoq'] = 1
+	return c
+
+
+def _gen_wave5(rng, big):
+	out = []
+	# (11) argument types, (14) orders, (15) order of the API calls: the same components through every form the setters accept
+	n_ty = 4000 if big else 560
+	for i in range(n_ty):
+		c = _clean(rng, _st_comps(rng))
+		r = rng.random()
+		if r < 0.25:
+			c['pairs'] = copy.deepcopy(rng.choice(ORDER_PAIRS))
+		elif r < 0.35 and QFORMS[i % len(QFORMS)] not in DICT_QFORMS:
+			c['pairs'] = copy.deepcopy(rng.choice(ORDER_PAIRS_DUP))
+		elif r < 0.5:
+			names = sorted({rtext(rng, 1, 2, 0, 0) for _ in range(rng.randint(2, 5))}, reverse=rng.random() < 0.7)
+			c['pairs'] = [[n, rtext(rng, 0, 2, 0, 0)] for n in names if n]
+		if rng.random() < 0.3:
+			c['segs'] = list(rng.choice(ORDER_SEGS))
+		elif rng.random() < 0.15:
+			c['segs'] = sorted({rtext(rng, 1, 2, 0, 0) for _ in range(rng.randint(2, 5))}, reverse=True)
+		out.append(_ty_case(rng, c, i))
+	# (10) aliasing: two objects from one argument object; the arguments and the views handed out are modified afterwards
+	for i in range(1200 if big else 150):
+		c = _clean(rng, _st_comps(rng))
+		qform = ('lists', 'lists', 'list', 'dict', 'odict', 'tuple')[i % 6]
+		if qform in DICT_QFORMS:
+			c['pairs'] = _distinct(c['pairs'])
+		c = dict(c, k='al', way=AL_WAYS[i % len(AL_WAYS)], qform=qform, dform=('dict', 'odict', 'kw')[i % 3], compose_first=i % 2)
+		if i % 3 or _textlen(c) > COQ_TEXT_LIMIT // 2:
+			c['nocoq'] = 1
+		out.append(c)
+	# (12) refused operations in between: the object must go on as if the call had never been made
+	for i in range(1500 if big else 230):
+		c = _clean(rng, _st_comps(rng))
+		ops = [RF_OPS[(i * 3 + j * 17) % len(RF_OPS)] for j in range(rng.randint(1, 4))]
+		if i < len(RF_OPS):
+			ops[0] = RF_OPS[i]
+		c = dict(c, k='rf', ops=ops, compose_first=i % 2)
+		if i % 3 or _textlen(c) > COQ_TEXT_LIMIT // 2:
+			c['nocoq'] = 1
+		out.append(c)
+	# (13) configuration: URI.encoding on a subclass / assigned on the class, with text of that charset's repertoire
+	for i in range(1500 if big else 240):
+		enc = CFG_ENCODINGS[i % len(CFG_ENCODINGS)]
+		via = ('sub', 'cls', 'cls')[i % 3]
+		rep = _repertoire(enc)
+		user = _cfg_text(rng, rep, 1, 3) if rng.random() < 0.6 else ''
+		c = _comps('' if via == 'sub' else rng.choice(['http', 'foo', 'https', 'ftp', '']), user, _cfg_text(rng, rep, 0, 3) if user and rng.random() < 0.6 else '',
+			rng.choice(['h', '[::1]', '1.2.3.4', 'a.b', 'bücher.example']), rng.choice([None, None, 80, 81, 8080]),
+			[_cfg_text(rng, rep, 0, 3) for _ in range(rng.choice([0, 1, 2, 3]))], [[_cfg_text(rng, rep, 1, 2) or 'n', _cfg_text(rng, rep, 0, 3)] for _ in range(rng.choice([0, 1, 2, 3]))],
+			_cfg_text(rng, rep, 0, 3) if rng.random() < 0.5 else '')
+		out.append(dict(c, k='cfg', enc=enc, via=via, nocoq=1))
+	# (16) value-dependent branches: every trailing octet of a UTF-8 sequence (0x80-0xBF: NEL, NBSP, C1 controls when read as Latin-1 ...) at the end, the start
+	# and the middle of every slot; Unicode blanks (str.strip() / str.split() eat them) at both ends; base64 text ('+', '/', '=' padding) in every slot
+	n = 0
+	for b in range(0x80, 0xc0):
+		k = b - 0x80
+		for ch in (chr(0x80 + k), chr(0xc0 + k), chr(0x4e00 + k), chr(0x2000 + 64 * k), chr(0x1f600 + k)):
+			slot = TEXT_SLOTS[n % 6]
+			text = (ch, 'a' + ch, ch + 'a', 'a' + ch + 'b', ch + ch)[(n // 6) % 5]
+			n += 1
+			out.append(_rt(_put(_ctx(rng), slot, text, rng)))
+	blanks = ['\x1c', '\x1d', '\x1e', '\x1f', '\x85', '\xa0', '\u1680'] + [chr(x) for x in range(0x2000, 0x200b)] + ['\u2028', '\u2029', '\u202f', '\u205f', '\u3000', '\u180e', '\u200b', '\ufeff']
+	for j, ch in enumerate(blanks):
+		for slot in (TEXT_SLOTS[j % 6], TEXT_SLOTS[(j + 3) % 6]) if not big else TEXT_SLOTS:
+			if ord(ch) < 0x20 and slot in ('name', 'value'):
+				continue   # (D21: C0 controls in a query pair are refused by the parser)
+			out.append(_rt(_put(_ctx(rng), slot, rng.choice([ch + 'a' + ch, ch + 'a', 'a' + ch, ch, ch + ' ', ' ' + ch]), rng)))
+	for j in range(900 if big else 120):
+		raw = bytes(rng.randrange(256) for _ in range(rng.choice([1, 2, 4, 5, 7, 8, 10, 16, 20])))
+		text = (base64.b64encode(raw) if j % 3 else base64.urlsafe_b64encode(raw)).decode('ascii')
+		if j % 5 == 0:
+			text = text.rstrip('=') + '=' * rng.randint(1, 3)   # over-padded
+		out.append(_rt(_put(_ctx(rng), TEXT_SLOTS[j % 6], text, rng)))
+	# (17) boundary arithmetic: 2^k and 2^k +- 1 for k = 9..16 in every position that has a length (those already in LENS are not repeated)
+	fills = ['a', 'é', ':', '\U0001f600', ' ', '%', 'aé', '/']
+	for p2 in POW2:
+		for n in (p2 - 1, p2, p2 + 1):
+			if n in LENS:
+				continue
+			if n <= 65536 and (big or n not in (65535, 65536)):   # (65535 / 65536 in four slots: already part of the third-wave block in the quick tier)
+				for slot in TEXT_SLOTS:
+					out.append(_rt(_put(_ctx(rng), slot, (rng.choice(fills) * n)[:n], rng)))
+			elif n > 65536:
+				for slot in ('seg', 'value', 'frag', 'pw'):
+					out.append(_rt(_put(_ctx(rng), slot, 'a' * n, rng)))
+			if n <= 16385:
+				# the ESCAPED form of the component is exactly n octets: q three-octet escapes and r literal octets
+				q = rng.randint(1, n // 3)
+				out.append(_rt(_comps(scheme='http', host='h', segs=[' ' * q + 'a' * (n - 3 * q)])))
+				out.append(_rt(_comps(scheme='x', host='h', port=8, frag='#' * q + 'f' * (n - 3 * q))))
+				# the whole serialisation is exactly n octets (with escapes and a two-octet character)
+				out.append(_rt(_comps(scheme='http', host='h', segs=['é' + 'a' * (n - 9 - 6)])))
+				out.append(_rt(_comps(scheme='x', host='h', port=8, ps=[['n', '&' + 'v' * (n - 10 - 3)]])))
+				out.append(_rt(_comps(scheme='http', user='u', pw='p', host='h', frag='f' * (n - 13))))
+	for n in (511, 512, 513) + ((2047, 2048, 2049) if big else ()):
+		out.append(_rt(_comps(scheme='http', host='h', segs=[rng.choice(['a', '', 'é', ':']) for _ in range(n - 1)] + ['z'])))
+		out.append(_rt(_comps(scheme='http', host='h', ps=[[rng.choice(['a', 'b', 'é']), rng.choice(['', 'v', '&'])] for _ in range(n)])))
 	return out
 
 
@@ -841,6 +1032,394 @@ def _hex_wire(key):
 	return b'x://h/a' + seq + b'b#' + seq, exp
 
 
+# ---------------------------------------------------------------- observation of the fifth-wave kinds
+class _DictSub(dict):
+	pass
+
+
+class _Iterable(object):
+	"""re-iterable, but neither a sequence nor a mapping"""
+
+	def __init__(self, items):
+		self.items = list(items)
+
+	def __iter__(self):
+		return iter(self.items)
+
+
+class _OneShot(object):
+	"""an iterator object of its own class"""
+
+	def __init__(self, items):
+		self.it = iter(list(items))
+
+	def __iter__(self):
+		return self
+
+	def __next__(self):
+		return next(self.it)
+
+
+class _Str(object):
+	def __str__(self):
+		return 'zz'
+
+
+def _qarg(form, ps):
+	tp = [tuple(p) for p in ps]
+	if form == 'tuple':
+		return tuple(tp)
+	if form == 'list':
+		return list(tp)
+	if form == 'lists':
+		return [list(p) for p in tp]
+	if form == 'dict':
+		return dict(tp)
+	if form == 'odict':
+		return collections.OrderedDict(tp)
+	if form == 'dictsub':
+		return _DictSub(tp)
+	if form == 'ddict':
+		return collections.defaultdict(str, tp)
+	if form == 'items':
+		return dict(tp).items()
+	if form == 'iter':
+		return iter(tp)
+	if form == 'gen':
+		return (p for p in tp)
+	if form == 'map':
+		return map(tuple, [list(p) for p in tp])
+	if form == 'chain':
+		return itertools.chain(tp[:1], tp[1:])
+	if form == 'zip':
+		return zip([p[0] for p in tp], [p[1] for p in tp])
+	if form == 'deque':
+		return collections.deque(tp)
+	if form == 'pairiters':
+		return [iter(p) for p in tp]
+	if form == 'iterable':
+		return _Iterable(tp)
+	if form == 'oneshot':
+		return _OneShot(tp)
+	raise ValueError(form)
+
+
+def _sarg(form, segs):
+	segs = list(segs)
+	if form == 'list':
+		return segs
+	if form == 'tuple':
+		return tuple(segs)
+	if form == 'iter':
+		return iter(segs)
+	if form == 'gen':
+		return (s for s in segs)
+	if form == 'map':
+		return map(str, segs)
+	if form == 'chain':
+		return itertools.chain(segs[:1], segs[1:])
+	if form == 'deque':
+		return collections.deque(segs)
+	if form == 'reversed':
+		return reversed(segs[::-1])
+	if form == 'iterable':
+		return _Iterable(segs)
+	if form == 'oneshot':
+		return _OneShot(segs)
+	raise ValueError(form)
+
+
+def _snap(x):
+	"""a comparable picture of a re-iterable argument object (None for iterators: nothing to compare)"""
+	def item(p):
+		return [type(p).__name__, list(p)] if isinstance(p, (list, tuple)) else p if isinstance(p, (str, bytes, int, type(None))) else None
+	if isinstance(x, dict):
+		return ['map', type(x).__name__, [[k, v] for k, v in x.items()]]
+	if isinstance(x, _Iterable):
+		x = x.items
+	if isinstance(x, (list, tuple, collections.deque)):
+		items = [item(p) for p in x]
+		return None if any(i is None and p is not None for i, p in zip(items, x)) else [type(x).__name__, items]
+	return None
+
+
+def _view(u):
+	"""what an object shows through its read accessors"""
+	v = {'t': _tuple(u), 'cls': type(u).__name__}
+	for name, f in (('port', lambda: u.port), ('segs', lambda: list(u.path_segments)), ('pairs', lambda: [list(p) for p in u.query])):
+		try:
+			v[name] = f()
+		except Exception as exc:
+			v[name] = _exc(exc)
+	return v
+
+
+def _view_or_err(f):
+	try:
+		return _view(f())
+	except Exception as exc:
+		return _exc(exc)
+
+
+def _build_ty(c):
+	"""the components of c handed to the public API in the argument types and in the order of calls the case names; returns (object, arguments left as they were)"""
+	um, URI, InvalidURI, Percent = _impl()
+	vals = {s: (c[s].encode('utf-8') if s in c['tf'] else c[s]) for s in ('scheme', 'user', 'pw', 'host', 'frag')}
+	p = c['port']
+	vals['port'] = p if p is None or c['pform'] == 'int' else str(p) if c['pform'] == 'str' else b'%d' % p
+	how, args = c['how'], {}
+	if how == 'attrs':
+		u = URI()
+		for s in ['scheme'] + c['order']:
+			setattr(u, KW[s], vals[s])
+	elif how == 'kw':
+		u = URI(**{KW[s]: vals[s] for s in KW})
+	elif how == 'kw-some':
+		u = URI(**{KW[s]: vals[s] for s in c['kw']})
+		for s in ['scheme'] + c['order']:
+			if s not in c['kw']:
+				setattr(u, KW[s], vals[s])
+	else:
+		keys = c['order'][:2] + ['scheme'] + c['order'][2:]
+		d = [(KW[s], vals[s]) for s in keys]
+		D = collections.OrderedDict(d) if how.endswith('odict') else _DictSub(d) if how.endswith('dictsub') else dict(d)
+		args['dict'] = D
+		if how.startswith('ctor'):
+			u = URI(D)
+		elif how.startswith('set'):
+			u = URI()
+			u.set(D)
+		else:
+			u = URI()
+			u.dict = D
+	args['segs'] = _sarg(c['sform'], ([''] + list(c['segs'])) if c['segs'] else [])
+	args['pairs'] = _qarg(c['qform'], c['pairs'])
+	before = copy.deepcopy({k: _snap(v) for k, v in args.items()})
+	for x in c['pq']:
+		if x == 's':
+			u.path_segments = args['segs']
+		else:
+			u.query = args['pairs']
+	return u, before == {k: _snap(v) for k, v in args.items()}
+
+
+def _observe_ty(c):
+	um, URI, InvalidURI, Percent = _impl()
+	o = {}
+	try:
+		u, same = _build_ty(c)
+	except Exception as exc:
+		o['set'] = _exc(exc)
+		return o
+	o['args_same'] = same
+	o['now'] = _view(u)
+	_after_build(u, c, 'rt', o)
+	o['now2'] = _view(u)
+	if 'b' not in o['compose']:
+		return o
+	w = bytes.fromhex(o['compose']['b'])
+
+	def parsed(x, how):
+		getattr(x, how)(w)
+		return x
+
+	def normalized(x):
+		x.normalize()
+		return x
+	# every entry point that takes a serialised URI or the parts of another object must lead to the same object
+	o['entry'] = {'str': _view_or_err(lambda: URI(w.decode('ascii'))), 'parse': _view_or_err(lambda: parsed(URI(), 'parse')), 'set': _view_or_err(lambda: parsed(URI(), 'set')),
+		'copy': _view_or_err(lambda: URI(URI(w))), 'tuple': _view_or_err(lambda: URI(URI(w).tuple)), 'dict': _view_or_err(lambda: URI(URI(w).dict)),
+		'bytearray': _view_or_err(lambda: URI(bytearray(w))), 'memoryview': _view_or_err(lambda: URI(memoryview(w))),
+		'norm': _view_or_err(lambda: normalized(URI(u))), 'join': _view_or_err(lambda: URI(b'http://base.example/b/c?x=1#y').join(w))}
+	try:
+		o['eq'] = [bool(u == URI(w)), bool(u == w), bool(u != URI(w))]
+	except Exception as exc:
+		o['eq'] = _exc(exc)
+	return o
+
+
+def _observe_al(c):
+	um, URI, InvalidURI, Percent = _impl()
+	o = {}
+	vals = [(KW[s], c[s]) for s in ('scheme', 'user', 'pw', 'host', 'port', 'frag')]
+	D = collections.OrderedDict(vals) if c['dform'] == 'odict' else dict(vals)
+	S = ([''] + list(c['segs'])) if c['segs'] else []
+	Q = _qarg(c['qform'], c['pairs'])
+	keep = copy.deepcopy([_snap(D), _snap(S), _snap(Q)])
+
+	def mk():
+		x = URI(**D) if c['dform'] == 'kw' else URI(D)
+		x.path_segments = S
+		x.query = Q
+		return x
+	try:
+		A = mk()
+		if c['compose_first']:
+			_compose(A)
+		way = c['way']
+		if way == 'same-args':
+			B = mk()
+		elif way == 'copy':
+			B = URI(A)
+		elif way == 'set':
+			B = URI()
+			B.set(A)
+		elif way == 'tuple':
+			B = URI(A.tuple)
+		elif way == 'dict':
+			B = URI(A.dict)
+		elif way == 'views':
+			B = URI(D)
+			B.path_segments = A.path_segments
+			B.query = A.query
+		else:
+			B = A.join()
+		o['b_view'] = _view(B)
+	except Exception as exc:
+		o['set'] = _exc(exc)
+		return o
+	try:
+		# the second object is used and modified in every way ...
+		_compose(B)
+		B.scheme, B.username, B.password, B.host, B.port, B.fragment = 'https', 'zz', 'zz', 'zz.example', 4444, 'zz'
+		B.path_segments = ['', 'zz']
+		B.query = [('zz', 'zz')]
+		bytes(B)
+		B.normalize()
+		B.parse(b'ftp://zz:zz@zz.example:1/zz?zz=zz#zz')
+		# ... so are the views the first object hands out ...
+		view = A.path_segments
+		view.append('zz')
+		view[:1] = ['zz']
+		d = A.dict
+		d['host'], d['path'], d['query_string'] = 'zz.example', '/zz', 'zz=zz'
+		A.tuple, A.query
+	except Exception as exc:
+		o['scribble'] = _exc(exc)
+	o['args_same'] = [_snap(D), _snap(S), _snap(Q)] == keep
+	# ... and, afterwards, the argument objects themselves
+	D.update(scheme='https', username='zz', password='zz', host='zz.example', port=4444, fragment='zz')
+	S.append('zz')
+	S[0] = 'zz'
+	if isinstance(Q, list):
+		Q.append(('zz', 'zz'))
+		if isinstance(Q[0], list):
+			Q[0][0] = Q[0][1] = 'zz'
+	elif isinstance(Q, dict):
+		for key in list(Q):
+			Q[key] = 'zz'
+		Q['zz'] = 'zz'
+	o['now'] = _view(A)
+	return _after_build(A, c, 'rt', o)
+
+
+RF_PARSE = {'parse-octet': b'\xff', 'parse-blank': b'x y', 'parse-host': b'//[v1/x', 'parse-utf8': b'//h/%ff', 'parse-query-utf8': b'//h/p?a=%ff'}
+
+
+def _rf_apply(u, op, c):
+	"""one operation the API refuses; returns the name of the exception (None: it was accepted)"""
+	um, URI, InvalidURI, Percent = _impl()
+	slot, _, what = op.partition('-')
+	restore = None
+	try:
+		if slot == 'port':
+			u.port = {'big': 65536, 'neg': -1, 'text': 'x', 'underscore': '8_0', 'list': [80], 'octet': b'\xff'}[what]
+		elif slot in ('user', 'pw', 'host', 'frag', 'scheme'):
+			setattr(u, KW[slot], {'int': 5, 'bytearray': bytearray(b'a'), 'memoryview': memoryview(b'a'), 'list': ['a'], 'obj': _Str(), 'float': 1.5}[what])
+		elif slot == 'segs':
+			u.path_segments = {'int': 5, 'none': None, 'bytes': [b'', b'a'], 'mixed': ['', 'a', 5], 'iter-mixed': iter(['', 'x', 5])}[what]
+		elif slot == 'query':
+			u.query = {'int': 5, 'none': None, 'short': [('a',)], 'long': [('a', 'b', 'c')], 'intval': [('a', 5)], 'surrogate': [('a', 'b'), ('c', '\ud800')], 'str': 'abc', 'bytesval': [('a', b'x')],
+				'mixed': [('a', 'b'), 5], 'iter-short': iter([('a', 'b'), ('c',)]), 'dict-int': {'a': 5}}[what]
+		elif slot == 'tuple':
+			u.tuple = {'short': ('http', '', ''), 'int': 5}[what]
+		elif slot == 'dict':
+			u.dict = 5
+		elif slot == 'set':
+			u.set({'int': 5, 'none': None, 'bytearray': bytearray(b'http://zz.example/zz'), 'memoryview': memoryview(b'http://zz.example/zz')}[what])
+		elif slot == 'parse':
+			u.parse(RF_PARSE[op])
+		elif slot == 'join':
+			u.join(5 if what == 'int' else b'//[bad')
+		elif slot == 'eq':
+			u == (5 if what == 'int' else b'//[bad')
+		elif slot == 'compose':
+			# a value that is accepted but cannot be serialised: the serialisation is refused; then the old value is assigned again
+			if what == 'frag-surrogate':
+				u.fragment, restore = 'a\ud800', lambda: setattr(u, 'fragment', c['frag'])
+			elif what == 'user-surrogate':
+				u.username, restore = '\udcff', lambda: setattr(u, 'username', c['user'])
+			elif what == 'host-long':
+				u.host, restore = '\xe4' * 64 + '.example', lambda: setattr(u, 'host', c['host'])
+			else:
+				u.path_segments, restore = ['', 'a', '\ud800'], lambda: _assign(u, c, 'segs')
+			bytes(u)
+		else:
+			raise KeyError(op)
+	except KeyError:
+		raise
+	except Exception as exc:
+		return type(exc).__name__
+	finally:
+		if restore:
+			restore()
+	return None
+
+
+def _observe_rf(c):
+	o = {}
+	try:
+		u = _build(c)
+		if c['compose_first']:
+			_compose(u)   # (a host the IDNA encoder refuses, ...: recorded by the serialisation below)
+		o['snap'] = _view(u)
+	except Exception as exc:
+		o['set'] = _exc(exc)
+		return o
+	o['ops'] = [[op, _rf_apply(u, op, c)] for op in c['ops']]
+	o['now'] = _view(u)
+	return _after_build(u, c, 'rt', o)
+
+
+def _observe_cfg(c):
+	um, URI, InvalidURI, Percent = _impl()
+	o = {}
+	if c['via'] == 'sub':
+		cls = type(URI)('Configured', (URI,), {'__slots__': (), 'encoding': c['enc']})
+	else:
+		cls, old = URI, URI.__dict__['encoding']
+		URI.encoding = c['enc']
+	try:
+		try:
+			u = cls(scheme=c['scheme'], username=c['user'], password=c['pw'], host=c['host'], port=c['port'], fragment=c['frag'])
+			u.path_segments = ([''] + list(c['segs'])) if c['segs'] else []
+			u.query = [tuple(p) for p in c['pairs']]
+			o['set'] = {'t': _tuple(u)}
+		except Exception as exc:
+			o['set'] = _exc(exc)
+			return o
+		o['seen'] = [type(u).__name__, u.encoding]
+		o['compose'] = _compose(u)
+		if 'b' in o['compose']:
+			data = bytes.fromhex(o['compose']['b'])
+			try:
+				v = cls(data)
+				o['parse'] = {'t': _tuple(v)}
+			except Exception as exc:
+				o['parse'] = _exc(exc)
+				return o
+			o['again'] = _compose(v)
+			o['segs_back'] = list(v.path_segments)
+			try:
+				o['pairs_back'] = [list(p) for p in v.query]
+			except Exception as exc:
+				o['pairs_back'] = _exc(exc)
+	finally:
+		if c['via'] != 'sub':
+			URI.encoding = old
+	return o
+
+
 def observe(c):
 	um, URI, InvalidURI, Percent = _impl()
 	k = c['k']
@@ -881,6 +1460,14 @@ def observe(c):
 		return _observe_st(c)
 	if k == 'enc':
 		return _observe_enc(c)
+	if k == 'ty':
+		return _observe_ty(c)
+	if k == 'al':
+		return _observe_al(c)
+	if k == 'rf':
+		return _observe_rf(c)
+	if k == 'cfg':
+		return _observe_cfg(c)
 	if k == 'reg':
 		d = c['scheme'].encode('ascii') + b'://h' + ((c['spell'] % c['dflt']) if '%d' in c['spell'] else c['spell']).encode('ascii') + b'/p'
 		o = _parse(d)
@@ -1095,9 +1682,14 @@ def oracle(c, o):
 		return _oracle_reg(c, o)
 	if k == 'hex':
 		return _oracle_hex(c, o)
+	if k in W5_ORACLES:
+		return W5_ORACLES[k](c, o)
 	if k != 'rt' or not in_domain(c):
 		return None
 	return _oracle_rt(c, o)
+
+
+W5_ORACLES = {'ty': lambda c, o: _oracle_ty(c, o), 'al': lambda c, o: _oracle_al(c, o), 'rf': lambda c, o: _oracle_rf(c, o), 'cfg': lambda c, o: _oracle_cfg(c, o)}
 
 
 def _escapes(o):
@@ -1108,7 +1700,7 @@ def _escapes(o):
 	return None
 
 
-def _oracle_rt(c, o):
+def _oracle_rt(c, o, enc='utf-8'):
 	if 't' not in o['set']:
 		return 'assembling the URI raised %s' % (o['set'],)
 	t0 = o['set']['t']
@@ -1116,7 +1708,7 @@ def _oracle_rt(c, o):
 		return 'serialising raised %s' % (o['compose'],)
 	b = bytes.fromhex(o['compose']['b'])
 	# (a) independent RFC 3986 reading of the composed octets: every component is where it belongs
-	leak = _rfc_reading(c, t0, b)
+	leak = _rfc_reading(c, t0, b, enc)
 	p = o['parse']
 	if 't' not in p:
 		return 'parsing the serialised URI raised %s (octets %r)%s' % (p.get('err'), b, '; ' + leak if leak else '')
@@ -1188,6 +1780,116 @@ def _oracle_st(c, o):
 	return None
 
 
+# ---------------------------------------------------------------- oracles of the fifth-wave kinds
+_DFLT = {}
+
+
+def _dflt(scheme):
+	if not _DFLT:
+		_DFLT.update(dict(_registry()))
+		_DFLT[''] = None
+	return _DFLT.get(scheme)
+
+
+def _holds(c, v, what):
+	"""the read accessors of an object show the components of c (stated on the accessors, not on the stored path / query text)"""
+	if 't' not in v:
+		return '%s raised %s %s' % (what, v.get('err'), v.get('msg', ''))
+	t = v['t']
+	got = [t[0], t[1], t[2], t[3], v['port'], t[7]]
+	exp = [c['scheme'], c['user'], c['pw'], c['host'], c['port'] or _dflt(c['scheme']), c['frag']]
+	if got != exp:
+		return '%s shows scheme, user, password, host, port, fragment = %r, expected %r' % (what, got, exp)
+	if not any('%2f' in s for s in c['segs']) and v['segs'] != (([''] + list(c['segs'])) if c['segs'] else ['']):
+		return '%s shows the path segments %r, expected %r' % (what, v['segs'], c['segs'])
+	if v['pairs'] != [list(p) for p in c['pairs']]:
+		return '%s shows the query pairs %r, expected %r' % (what, v['pairs'], c['pairs'])
+	return None
+
+
+def _plain_path(c):
+	"""normalize() / join() leave such a path alone: no empty and no dot segments"""
+	return all(s not in ('', '.', '..') for s in c['segs'])
+
+
+def _oracle_ty(c, o):
+	e = _escapes(o)
+	if e:
+		return e
+	if not in_domain(c):
+		return None
+	given = 'pairs given as %s, segments as %s, built by %s (bytes: %s; port as %s)' % (c['qform'], c['sform'], c['how'], ','.join(c['tf']) or '-', c['pform'])
+	if 't' not in o.get('set', {}):
+		return '%s: assembling the URI raised %s' % (given, o.get('set'))
+	if not o['args_same']:
+		return '%s: the setters changed the argument objects' % (given,)
+	r = _holds(c, o['now'], 'the assembled object') or _oracle_rt(c, o) or _holds(c, o['now2'], 'the object after it was serialised')
+	if r:
+		return '%s: %s' % (given, r)
+	for name, v in sorted(o.get('entry', {}).items()):
+		if name in ('bytearray', 'memoryview') and 'err' in v:
+			continue   # a type the constructor refuses; where it is accepted it has to mean the same octets
+		if name in ('norm', 'join') and not (_plain_path(c) and (c['scheme'] or name == 'norm')):
+			continue
+		r = _holds(c, v, {'norm': 'a normalized copy', 'join': 'another URI joined with the serialisation'}.get(name, 'the serialisation %r read through %s' % (bytes.fromhex(o['compose']['b']), name)))
+		if r:
+			return '%s: %s' % (given, r)
+	if 'entry' in o and o.get('eq') != [True, True, False]:
+		return '%s: the object does not compare equal to its own serialisation %r: %r' % (given, bytes.fromhex(o['compose']['b']), o.get('eq'))
+	return None
+
+
+def _oracle_al(c, o):
+	e = _escapes(o)
+	if e:
+		return e
+	if not in_domain(c):
+		return None
+	if 't' not in o.get('set', {}):
+		return 'two objects from one argument object: assembling raised %s' % (o.get('set'),)
+	if 'scribble' in o:
+		return 'two objects from one argument object: using the second one (%s) raised %s' % (c['way'], o['scribble'])
+	if not o['args_same']:
+		return 'two objects from one argument object: the argument objects were changed by the objects built from them'
+	if c['way'] != 'join' or _plain_path(c):
+		r = _holds(c, o['b_view'], 'the second object (%s)' % c['way'])
+		if r:
+			return 'two objects from one argument object: ' + r
+	r = _holds(c, o['now'], 'the first object, after the second one (%s), the views it handed out and the argument objects were modified,' % c['way']) or _oracle_rt(c, o)
+	return ('two objects from one argument object (%s): ' % c['way'] + r) if r else None
+
+
+def _oracle_rf(c, o):
+	e = _escapes(o)
+	if e:
+		return e
+	if not in_domain(c) or 't' not in o.get('set', {}):
+		return None   # (the plain round trip of the same tuple is an 'rt' matter)
+	if any(raised is None for op, raised in o['ops']):
+		return None   # the operation was accepted: whatever it means, it is not a refusal
+	ops = ', '.join('%s (%s)' % (op, raised) for op, raised in o['ops'])
+	if o['now'] != o['snap']:
+		return 'refused operation: after %s the object shows %r, before it showed %r' % (ops, o['now'], o['snap'])
+	r = _holds(c, o['now'], 'the object') or _oracle_rt(c, o)
+	return ('refused operation: after %s: %s' % (ops, r)) if r else None
+
+
+def _oracle_cfg(c, o):
+	e = _escapes(o)
+	if e:
+		return e
+	enc = c['enc']
+	if not in_domain(c):
+		return None
+	try:
+		for t in [c['user'], c['pw'], c['frag']] + list(c['segs']) + [x for p in c['pairs'] for x in p]:
+			t.encode(enc)
+	except UnicodeEncodeError:
+		return None   # text outside the configured charset: outside the domain
+	r = _oracle_rt(c, o, enc)
+	return ('with URI.encoding = %r (%s): %s' % (enc, 'on a subclass' if c['via'] == 'sub' else 'assigned on the class', r)) if r else None
+
+
 def _oracle_enc(c, o):
 	if not in_domain(c):
 		return None
@@ -1229,7 +1931,7 @@ def _oracle_hex(c, o):
 	return None
 
 
-def _rfc_reading(c, t0, b):
+def _rfc_reading(c, t0, b, enc='utf-8'):
 	m = RFC3986.match(b)
 	if not m:
 		return 'composed octets do not match the RFC 3986 appendix B expression: %r' % (b,)
@@ -1241,18 +1943,18 @@ def _rfc_reading(c, t0, b):
 		return 'leak: no authority in %r' % (b,)
 	userinfo, at, hostport = authority.partition(b'@') if b'@' in authority else (b'', b'', authority)
 	user, colon, pw = userinfo.partition(b':')
-	if uq(user) != c['user'].encode('utf-8') or uq(pw) != c['pw'].encode('utf-8'):
+	if uq(user) != c['user'].encode(enc) or uq(pw) != c['pw'].encode(enc):
 		return 'leak: user information reads as %r / %r in %r' % (user, pw, b)
 	wire = c['host'].encode('idna')
 	port = t0[4]
 	if hostport not in ((wire, wire + b':%d' % port) if port else (wire,)):
 		return 'leak: host and port read as %r in %r' % (hostport, b)
-	if [uq(s) for s in path.split(b'/')] != [s.encode('utf-8') for s in t0[5].split('/')]:
+	if [uq(s) for s in path.split(b'/')] != [s.encode(enc) for s in t0[5].split('/')]:
 		return 'leak: path reads as %r in %r' % (path, b)
-	got = urllib.parse.parse_qsl((query or b'').decode('latin-1'), keep_blank_values=True, encoding='utf-8', errors='surrogateescape')
+	got = urllib.parse.parse_qsl((query or b'').decode('latin-1'), keep_blank_values=True, encoding=enc, errors='surrogateescape')
 	if [list(p) for p in got] != [list(p) for p in c['pairs']] and not any(not p[1] and not p[0] for p in c['pairs']):
 		return 'leak: query reads as %r in %r' % (query, b)
-	if uq(frag or b'') != c['frag'].encode('utf-8'):
+	if uq(frag or b'') != c['frag'].encode(enc):
 		return 'leak: fragment reads as %r in %r' % (frag, b)
 	# no raw gen-delim of RFC 3986 inside a component where it is not the separator
 	for name, part, bad in (('user information', userinfo, b'/?#[]@'), ('path', path, b'?#[]'), ('query', query or b'', b'#[]'), ('fragment', frag or b'', b'#[]')):
@@ -1262,7 +1964,7 @@ def _rfc_reading(c, t0, b):
 
 
 def classify(c, o, fail):
-	if c['k'] not in ('rt', 'st', 'enc') or fail.startswith(('unexpected exception', 'harness exception', 'reused object: unexpected exception')):
+	if c['k'] not in ('rt', 'st', 'enc', 'ty', 'al', 'rf', 'cfg') or fail.startswith(('unexpected exception', 'harness exception', 'reused object: unexpected exception')):
 		return None
 	texts = [c['user'], c['pw'], c['frag']] + list(c['segs']) + [x for p in c['pairs'] for x in p]
 	if _low(texts):
